@@ -90,6 +90,10 @@ func Explore(h Harness, opt Options) Result {
 		prefix []Action
 	}
 	work := []frame{{}}
+	if Hung {
+		res.Capped = true // an earlier exploration left an uncontrolled goroutine behind
+		work = nil
+	}
 	for len(work) > 0 {
 		f := work[len(work)-1]
 		work = work[:len(work)-1]
@@ -122,7 +126,11 @@ func Explore(h Harness, opt Options) Result {
 				break
 			}
 			if p := s.Step(a); p != nil {
-				report(Violation{Kind: "panic", Msg: fmt.Sprint(p), Schedule: append(sched, a), Trace: s.Trace})
+				kind := "panic"
+				if _, isHang := p.(Hang); isHang {
+					kind = "hang"
+				}
+				report(Violation{Kind: kind, Msg: fmt.Sprint(p), Schedule: append(sched, a), Trace: s.Trace})
 				ok = false
 				break
 			}
@@ -196,7 +204,11 @@ func Explore(h Harness, opt Options) Result {
 				}
 			}
 			if p := s.Step(a); p != nil {
-				report(Violation{Kind: "panic", Msg: fmt.Sprint(p), Schedule: append(sched, a), Trace: s.Trace})
+				kind := "panic"
+				if _, isHang := p.(Hang); isHang {
+					kind = "hang"
+				}
+				report(Violation{Kind: kind, Msg: fmt.Sprint(p), Schedule: append(sched, a), Trace: s.Trace})
 				break
 			}
 			sched = append(sched, a)
@@ -207,6 +219,9 @@ func Explore(h Harness, opt Options) Result {
 			n.out = append(n.out, edge{a.Thread, key()})
 		}
 		s.Close()
+		if Hung {
+			res.Capped = true
+		}
 		if res.Capped {
 			break
 		}
